@@ -93,6 +93,17 @@ def _noise(op, arg):
                 pass
         elif op == 'split':
             real['split'](arg)
+        elif op == 'private-lexer':
+            # a caller's OWN Lexer instance, configured differently (fewer dictionaries, one more rule), used on ordinary words in several casings:
+            # nothing of it may reach the default instance
+            from sqlparse import keywords as K, tokens as T
+            lx = lexer.Lexer()
+            lx.clear()
+            lx.set_SQL_REGEX([(r'zz\d+', T.Literal)] + K.SQL_REGEX)
+            lx.add_keywords(K.KEYWORDS)
+            for t in NOISE_TEXTS + ['select SELECT Select insert INSERT update delete create CREATE with WITH drop alter merge from where order by group by type level key data']:
+                for _ in lx.get_tokens(t):
+                    pass
     except Exception:
         pass
 
@@ -111,7 +122,7 @@ def _battery():
         for text in order:
             STATE['history'].append(['format', [text, opts]])
             _noise('format', (text, opts))
-    for op in ('bad-bytes', 'raises', 'consume-pending'):
+    for op in ('bad-bytes', 'raises', 'consume-pending', 'private-lexer'):
         STATE['history'].append([op, None])
         _noise(op, None)
     STATE['battery'] = True
@@ -119,16 +130,16 @@ def _battery():
 
 def _random_noise(rng):
     if STATE['raises'] >= MAX_RAISES:
-        op = rng.choice(['parse-mutate', 'abandon-parsestream', 'lazy-tokenize', 'consume-pending', 'format', 'bad-bytes', 'split'])
+        op = rng.choice(['parse-mutate', 'abandon-parsestream', 'lazy-tokenize', 'consume-pending', 'format', 'bad-bytes', 'split', 'private-lexer'])
         if op == 'format':
             return op, (rng.choice(NOISE_TEXTS), rng.choice(NOISE_OPTS))
-        if op in ('consume-pending', 'bad-bytes'):
+        if op in ('consume-pending', 'bad-bytes', 'private-lexer'):
             return op, None
         return op, rng.choice(NOISE_TEXTS)
-    op = rng.choice(['parse-mutate', 'abandon-parsestream', 'lazy-tokenize', 'consume-pending', 'format', 'bad-bytes', 'raises', 'split'])
+    op = rng.choice(['parse-mutate', 'abandon-parsestream', 'lazy-tokenize', 'consume-pending', 'format', 'bad-bytes', 'raises', 'split', 'private-lexer'])
     if op == 'format':
         return op, (rng.choice(NOISE_TEXTS), rng.choice(NOISE_OPTS))
-    if op in ('consume-pending', 'bad-bytes', 'raises'):
+    if op in ('consume-pending', 'bad-bytes', 'raises', 'private-lexer'):
         return op, None
     return op, rng.choice(NOISE_TEXTS)
 
